@@ -122,6 +122,12 @@ func (w *world) build(name string, args []val) (sql.Expression, error) {
 	for i, a := range args {
 		lits[i] = a.lit()
 	}
+	return w.buildOn(name, lits)
+}
+
+// buildOn constructs the function node over arbitrary argument expressions (literals for a single
+// call, column references for the multi-row streams of rows.go).
+func (w *world) buildOn(name string, lits []sql.Expression) (sql.Expression, error) {
 	switch name {
 	case "trim_both", "trim_leading", "trim_trailing":
 		if len(lits) != 2 {
@@ -198,31 +204,38 @@ func (w *world) evalRaw(name string, args []val) res {
 			r = res{obs: classify(err)}
 			return
 		}
-		v, err = sql.UnwrapAny(w.ctx, v)
-		if err != nil {
-			r = res{obs: "err:unwrap"}
-			return
-		}
-		switch x := v.(type) {
-		case nil:
-			r = res{obs: "null", v: vNull(), ok: true}
-		case string:
-			r = res{v: vText(x), ok: true}
-		case []byte:
-			r = res{v: vBlob(string(x)), ok: true}
-		default:
-			if i, ok := goInt(v); ok {
-				r = res{v: vInt(i), ok: true}
-			} else {
-				r = res{obs: fmt.Sprintf("other:%T:%v", v, v)}
-			}
-		}
-		if r.ok {
-			r.obs = r.v.sexp()
-		}
+		r = w.canon(v)
 	})
 	if p != "" {
 		return res{obs: "crash"}
+	}
+	return r
+}
+
+// canon reads a value returned by Eval into the canonical observation (kind + a COPY of the bytes):
+// reading the same Go value again later shows whether the storage behind it was written meanwhile.
+func (w *world) canon(v interface{}) res {
+	var r res
+	v, err := sql.UnwrapAny(w.ctx, v)
+	if err != nil {
+		return res{obs: "err:unwrap"}
+	}
+	switch x := v.(type) {
+	case nil:
+		r = res{obs: "null", v: vNull(), ok: true}
+	case string:
+		r = res{v: vText(strings.Clone(x)), ok: true}
+	case []byte:
+		r = res{v: vBlob(string(x)), ok: true}
+	default:
+		if i, ok := goInt(v); ok {
+			r = res{v: vInt(i), ok: true}
+		} else {
+			r = res{obs: fmt.Sprintf("other:%T:%v", v, v)}
+		}
+	}
+	if r.ok {
+		r.obs = r.v.sexp()
 	}
 	return r
 }
@@ -502,6 +515,12 @@ func run(a hx.RunArgs) error {
 	randomCalls(w, &gen{r: root.Fork()}, nCalls)
 	exhaustiveSmall(w, a.Thorough)
 	identities(w, g, nIdent)
+	// statement-level streams (rows.go) on a generator of their own: the older streams do not shift
+	nRows, nStmt := 14, 2
+	if a.Thorough {
+		nRows, nStmt = 500, 40
+	}
+	rowStreams(w, &gen{r: hx.NewRand(a.Seed*1000003 + 34)}, nRows, nStmt)
 	if harnessErr != nil {
 		return harnessErr
 	}
@@ -1677,5 +1696,10 @@ func extract(a hx.ExtractArgs) error {
 		return err
 	}
 	lf.DefNatList("base64OfA", pad1)
+
+	// 4. the state of the function nodes (facts_nodes.go)
+	if err := extractNodes(a, lf, w); err != nil {
+		return err
+	}
 	return lf.Write(a.Out)
 }
